@@ -64,6 +64,12 @@ def run(ctx):
         ctx.dist(name)
         if not m.is_solved():
             ctx.count("E2_constraints", "unsolved"); continue
+        import inspect
+        try:
+            par0 = [p_ for p_ in inspect.signature(m.get_solution).parameters if p_.startswith("remove_empty")]
+            plain0 = copy.deepcopy(m.get_solution(**{par0[0]: False})) if par0 else None      # the unfiltered answer, asked FIRST
+        except Exception as e:
+            ctx.report(f"{name}: get_solution(remove_empty...=False) raised {e!r}", rep); continue
         sol = copy.deepcopy(m.get_solution()); routes = sol[zoo.routes_key(name)]
         rep["solution"] = routes
         # (0') asking again gives the same answer (the first call may cache: the cache must hold what was returned)
@@ -86,6 +92,9 @@ def run(ctx):
             except Exception as e:
                 ctx.report(f"{name}: get_solution({par[0]}=True) raised {e!r}", rep); continue
             rk = zoo.routes_key(name)
+            if plain0 is not None and plain.get(rk) != plain0.get(rk):
+                ctx.report(f"{name}: the unfiltered get_solution({par[0]}=False) was {plain0.get(rk)} when asked first and is {plain.get(rk)} "
+                           f"after default / filtered calls", rep); continue
             nonempty = [r_ for r_ in sol[rk] if len(r_) > 0]
             if f1.get(rk) != f2.get(rk) or f1.get(rk) != nonempty or (par[0] in inspect.signature(m.get_solution).parameters and
                     inspect.signature(m.get_solution).parameters[par[0]].default is False and plain.get(rk) != sol[rk]):
